@@ -34,3 +34,29 @@ pub fn meta_format(kind: &str, pid: i32, timestamp: f64, text: &str) -> String {
 pub fn realdirpath(p: &Path) -> std::io::Result<PathBuf> {
     super::state::verif_realdirpath(p)
 }
+
+/// Append one line to the file named by `REDO_VERIF_TRACE` (no-op if unset).
+pub(crate) fn trace_line(line: &str) {
+    use std::io::Write;
+    if let Some(path) = std::env::var_os("REDO_VERIF_TRACE") {
+        if let Ok(mut f) = std::fs::OpenOptions::new()
+            .append(true)
+            .create(true)
+            .open(path)
+        {
+            let _ = f.write_all(format!("{}\n", line).as_bytes());
+        }
+    }
+}
+
+/// Lock / job protocol event: `lck <pid> <runid> <kind> <fid> <detail>`.
+pub(crate) fn lock_event(kind: &str, fid: i64, detail: &str) {
+    trace_line(&format!(
+        "lck {} {} {} {} {}",
+        std::process::id(),
+        std::env::var("REDO_RUNID").unwrap_or_default(),
+        kind,
+        fid,
+        detail
+    ));
+}
